@@ -18,11 +18,11 @@ from vplib import simlib
 from vplib.simlib import SimRunner, basic_problems, err_class
 
 MANIFEST = dict(
-    category="exploration",
-    text="Schedule exploration only (the Coq protocol model M-Sys and the theorems failure_local / awaiters_get_same_error / step_never_errs are pending): generated systems with a failing member at each kind of site (builtin domain error, effect error from the instrumented backend, ownership violation, send/spawn/select inside a receive filter) and awaiters before/during/after the failure are run on the real Environment/Worker/Repl code in a deterministic simulator under seeded adversarial schedules; checked: non-awaiters reach their normal results, every awaiter of the failed process fails with the same error, and Worker::step / Environment::step never panic or return Err.",
+    category="proof",
+    text="Coq theorems on the protocol model M-Sys (coq/theories/sys/Proto.v), for every oracle: failure_local (a process-level error changes only the failed process and the processes that have it in `awaiting`; run queue and parked sets untouched), the error reaches an awaiter unchanged on every hop (check_completed_processes -> Environment -> Worker::notify_result; an awaiter registered after the failure is registered and answered in the same step), Worker::handle_command fails only on a client's ResumeProcess/GetResult misuse and Environment::handle_event never fails on routed process ids. PARTIAL: the global compositions awaiters_get_same_error and step_never_errs over whole schedules are stated in props/C15.v but not proved; they are checked on the real code by schedule exploration (failing member at 7 kinds of site, awaiters before/during/after, no panic / Err from Worker::step and Environment::step). The model is tied to the code by replaying qv_sim traces through the extracted model with the state compared after every scheduler action.",
     design_ref="§4, §5 C15",
-    note="Trusted: the simulator's transports, backend and oracles (harness/src/bin/qv_sim), the schedule abstraction of DESIGN §4. Debug build (debug assertions are outcomes). Panics inside builtins are C12's.",
-    technique="bounded schedule exploration of the real runtime in a deterministic simulator with implementation-level oracles (failure containment, no internal error), ddmin-shrunk replays",
+    note="Trusted: Coq kernel, extraction (ExtrOcamlBasic), OCaml driver, the simulator and its backend (harness/src/bin/qv_sim), the trace-to-oracle conversion (vplib/simlib.py), the schedule abstraction of DESIGN §4. Debug build (debug assertions are outcomes). Effects/resources and the heap are outside M-Sys (C14, C06). Known finding F71.",
+    technique="Coq proof on a protocol model + model/code correspondence by trace replay + schedule exploration of the real runtime with implementation-level oracles",
 )
 
 
@@ -99,7 +99,7 @@ def run(ctx):
     if drv:
         # effects are outside M-Sys: replay the scenarios without effect sites
         idx = [i for i in range(len(meta)) if meta[i][2] != "corpus" and "__test_" not in str(scenarios[meta[i][0]]["src"])]
-        step = max(1, len(idx) // ctx.n(90, 1500))
+        step = max(1, len(idx) // ctx.n(36, 600))
         sample = [simlib.case_line(scenarios[meta[i][0]]["src"], meta[i][1][0], meta[i][1][1], meta[i][2] if meta[i][2] != "fair" else "")
                   for i in idx[::step]]
         simlib.correspondence(ctx, exe, drv, sample, lambda s: basic_problems(s))
